@@ -147,12 +147,23 @@ def apply(pose, op, be):
     return pose, be, extra
 
 
-def run_one(case, fill, ops, be):
+def run_one(case, fill, ops, be, wide_garbage=False):
     from pose_format.pose_header import PoseHeaderCache
     PoseHeaderCache.clear_cache()
     out = []
     try:
-        pose = convert(pc.build_pose(filled_case(case, fill)), be)
+        pose = pc.build_pose(filled_case(case, fill))
+        if case.get("wide") and be == "numpy":
+            # a binary64 body (what fake_pose and user code build): in the first run the slots of the missing points hold values far outside the binary32
+            # range — whatever the library computes with them on the way (casts on write, squares in a norm) may warn, never change or refuse the result
+            from pose_format.numpy import NumPyPoseBody
+            raw = np.asarray(ma.getdata(pose.body.data)).astype(np.float64)
+            m = np.array(np.broadcast_to(ma.getmaskarray(pose.body.data), raw.shape))
+            if wide_garbage:
+                g = np.array([1e300, -1e300, 1e39, -3.5e38, 1.7e308])
+                raw[m] = g[np.arange(int(m.sum())) % len(g)]
+            pose.body = NumPyPoseBody(pose.body.fps, raw, np.asarray(pose.body.confidence))
+        pose = convert(pose, be)
         out.append({"body": body_view(pose.body, be)})
     except Exception as e:
         return [{"error": type(e).__name__ + ": " + str(e)[:160]}]
@@ -170,10 +181,11 @@ def run_one(case, fill, ops, be):
 
 
 def run_case(case, be):
+    # warnings are silenced; numpy's error state is left as the library sets it (the default: warn) — a library that turned floating-point warnings into
+    # exceptions would make results depend on what is stored at missing points
     with warnings.catch_warnings():
         warnings.simplefilter("ignore")
-        with np.errstate(all="ignore"):
-            return {"run1": run_one(case, case["fill1"], case["ops"], be), "run2": run_one(case, case["fill2"], case["ops"], be)}
+        return {"run1": run_one(case, case["fill1"], case["ops"], be, wide_garbage=True), "run2": run_one(case, case["fill2"], case["ops"], be)}
 
 
 def representation_case(case, be):
